@@ -59,7 +59,26 @@ class SymMk:
         return x
 
     def values(self, model):
-        return {n: model_float(model, v) for n, v in self.names.items()}
+        out = {n: model_float(model, v) for n, v in self.names.items()}
+        ufs = getattr(self, "ufs", None)
+        if ufs:
+            tabs = {}
+            for name, f in ufs.items():
+                fi = model[f]
+                if fi is None:
+                    tabs[name] = {"entries": [], "else": 0.0}
+                    continue
+                entries = []
+                try:
+                    for i in range(fi.num_entries()):
+                        e = fi.entry(i)
+                        entries.append(([_num(e.arg_value(j)) for j in range(e.num_args())], _num(e.value())))
+                    els = _num(fi.else_value())
+                except Exception:  # noqa: BLE001
+                    els = 0.0
+                tabs[name] = {"entries": entries, "else": els}
+            out["__uf__"] = tabs
+        return out
 
     def bounds(self, lim=8):
         return [z3.And(v >= -lim, v <= lim) for v in self.names.values()]
@@ -127,3 +146,16 @@ def differs(a, b, rtol=1e-6, atol=1e-8):
     if err > atol + rtol * scale:
         return True, f"max abs diff {err:.3e} (scale {scale:.3g}): code={np.round(a, 6).tolist()} ref={np.round(b, 6).tolist()}"
     return False, f"max abs diff {err:.3e}"
+
+
+def _num(v):
+    v = z3.simplify(v)
+    if z3.is_rational_value(v):
+        return v.numerator_as_long() / v.denominator_as_long()
+    if z3.is_algebraic_value(v):
+        a = v.approx(20)
+        return a.numerator_as_long() / a.denominator_as_long()
+    try:
+        return float(str(v))
+    except ValueError:
+        return 0.0
